@@ -312,7 +312,7 @@ pub fn cmd_walk(jobs_path: &str) {
     if jv["via"].as_str() == Some("loop") {
       // the same history through the REAL per-device loop and the REAL driver (system-call level): one event per
       // wake-up; a reset is the tablet switch going on and off; `ev` is what the loop WROTE after reading the event
-      for rec in crate::looprun::walk_via_loop(&layout, &history, jv["noise"].as_u64().unwrap_or(0) as u8, jv["wake"].as_u64().unwrap_or(0), jv["sendfault"].as_u64().unwrap_or(0) as usize) { writeln!(out, "{}", rec).unwrap(); }
+      for rec in crate::looprun::walk_via_loop(&layout, &history, jv["noise"].as_u64().unwrap_or(0) as u8, jv["wake"].as_u64().unwrap_or(0), jv["sendfault"].as_u64().unwrap_or(0) as usize, jv["faultrun"].as_u64().unwrap_or(1) as usize) { writeln!(out, "{}", rec).unwrap(); }
       continue;
     }
     for (h, _unseen) in history {
